@@ -962,8 +962,17 @@ void XdlEncoder::new_string(const char* x)
 			_out << "\\t"; break;
 		case '\f':
 			_out << "\\f"; break;
+		case '\b':
+			_out << "\\b"; break;
 		default:
-			_out << c;
+			if ((unsigned char)c < ' ') // other control characters are not allowed unescaped
+			{
+				char u[8];
+				snprintf(u, sizeof(u), "\\u%04x", (unsigned)(unsigned char)c);
+				_out << u;
+			}
+			else
+				_out << c;
 		}
 	}
 	_out << '\"';
